@@ -82,11 +82,7 @@ package otp
 //@   ensures[cmp] len(code) == expectedLength && apply1(deriveFn) == nil ==> (ok <==> code == apply0(deriveFn))
 //@   ensures[verdict] (ok && err == nil) || (!ok && err != nil)
 
-//@ func otp.validateRFC4226$1() (s, err)
-//@   label secret key
-//@   label result mac
-//@   ensures[rfc4226] hotpok(algo, digits) ==> err == nil && s == hotp(algo, view(secret), counter, digits)
-//@   ensures[bad] !hotpok(algo, digits) ==> err != nil && s == ""
+// (the closures passed to validate carry no contract: their bodies are executed symbolically at the call)
 
 //@ func otp.validateRFC4226(code, secret, counter, digits, algo) (ok, err)
 //@   label code usr
@@ -227,14 +223,6 @@ package otp
 //@   let cfg = suitecfg(suite)
 //@   ensures[rfc6287] b32ok(secret) && usable(cfg) && admissible(cfg, input) ==> err == nil && code == otpcode(cfg.Hash, b32key(secret), ocramsg(cfg, input), cfg.Digits)
 //@   ensures[reject] !(b32ok(secret) && usable(cfg) && admissible(cfg, input)) ==> err != nil && code == ""
-
-//@ func otp.validateRFC6287$1() (s, err)
-//@   label secret key
-//@   label result mac
-//@   dyntypes suite in SuiteConfig, RawSuite
-//@   let cfg = suitecfg(suite)
-//@   ensures[rfc6287] usable(cfg) && admissible(cfg, input) ==> err == nil && s == otpcode(cfg.Hash, view(secret), ocramsg(cfg, input), cfg.Digits)
-//@   ensures[reject] !(usable(cfg) && admissible(cfg, input)) ==> err != nil && s == ""
 
 //@ func otp.validateRFC6287(code, secret, suite, input) (ok, err)
 //@   label code usr
